@@ -6,6 +6,7 @@ The statements are about `pnStep` (the model of `PlaceNotationGenerator._gen_row
 -/
 import Wheatley.Lemmas.Gen
 import Wheatley.Lemmas.Cli
+import Wheatley.Lemmas.Handlers
 namespace Wheatley.C04
 
 /-- The plain change of the method at row `index`. -/
@@ -145,5 +146,41 @@ theorem cli_calls_are_the_given_ones (c : Parse.Chars) (os : List Cli.Opt) (u : 
   · have := Cli.foldl_single os {}
     simp only [Cli.parseOpts]; rw [this]; exact hs
   · exact hg
+
+/-! ### The whole system -/
+section System
+variable {K : Type} [Num K]
+
+/-- **A Bob or Single changes nothing when it is called** - at the level of the whole system, whenever the message
+arrives (in rounds, in the method, mid-row, while the main thread waits for a human, while a Look To handler
+sleeps) and whatever the state: the row being rung, the place in it, the generator's current row and its position
+in the method are what they were, nothing is struck, the main thread is where it was.  All the call does is set its
+flag; what the flag does is decided by `pnStep` at the next row it is defined for (the theorems above). -/
+theorem call_changes_no_row_now (wt : K → K) (w : World K) (c : String)
+    (hc : c = Generated.call_BOB ∨ c = Generated.call_SINGLE) :
+    (World.deliver wt w (.msg (.call c))).bot.row = w.bot.row ∧
+    (World.deliver wt w (.msg (.call c))).bot.place = w.bot.place ∧
+    (World.deliver wt w (.msg (.call c))).bot.gen.row = w.bot.gen.row ∧
+    (World.deliver wt w (.msg (.call c))).bot.gen.index = w.bot.gen.index ∧
+    (World.deliver wt w (.msg (.call c))).bot.gen.callPN = w.bot.gen.callPN ∧
+    (World.deliver wt w (.msg (.call c))).pc = w.pc ∧
+    ringsOf (World.deliver wt w (.msg (.call c))).obs = ringsOf w.obs := by
+  obtain ⟨hp, hr⟩ := deliver_never_rings wt w (.msg (.call c))
+  refine ⟨?_, ?_, ?_, ?_, ?_, hp, hr⟩
+  all_goals
+    unfold World.deliver World.lookToSuspends
+    rcases hc with rfl | rfl
+    all_goals
+      simp only [Generated.call_BOB, Generated.call_SINGLE, Generated.call_LOOK_TO, String.reduceBEq,
+        Bool.false_eq_true, if_false]
+      unfold World.deliverMsg
+      simp only []
+      split
+      all_goals
+        first
+          | (dsimp only; rw [(foldl_applyOut_bot_crashed wt _ _ _).1]; rfl)
+          | (rw [(foldl_applyOut_bot_crashed wt _ _ _).1]; rfl)
+
+end System
 
 end Wheatley.C04
